@@ -6,6 +6,7 @@ import SV.Proofs.C06Style
 import SV.Proofs.C06Url
 import SV.Proofs.C06Headers
 import SV.Proofs.C06Session
+import SV.Proofs.C06Template
 
 namespace SV.Props.C06
 open SV.Model.C06 SV.Spec.C06 SV.Proofs.C06
@@ -575,6 +576,44 @@ theorem cookie_handler_cleans_up (vm vp : Variant) (cl : Clients) (c : CaseS) (a
 theorem session_cookie_shadowed_by_case_is_deleted :
     (send .wsgi .perCall .asFound .asFound ⟨[], [(lit "sid", lit "u")]⟩ ⟨none, some [(lit "sid", lit "g")]⟩
       ⟨none, none, true, []⟩).2.2.userJar = [] := by
+  decide
+
+
+/-! ### the coverage phase: one `Template`, many cases -/
+
+/-- **Coverage cases do not depend on the cases built before them.**  For every template (whatever values its
+    containers hold), every serializer configuration and every history of cases built from it (`unmodified` / `with_body`,
+    `with_parameter`, `with_container` in any order and number): with the copy taken at the entry of `_serialize` the
+    template is left exactly as it was, and the containers of the k-th case are those a fresh template with the same
+    contents gives — each generated value is serialized once, never cumulatively. -/
+theorem template_history_independent (cfg : TplCfg) (t : Tpl) (ops : List TOp) :
+    runT .entry cfg t ops = ops.map (fun op => (stepT .entry cfg t op).2) ∧
+    ∀ op, (stepT .entry cfg t op).1 = t :=
+  ⟨SV.Proofs.C06Template.runT_entry cfg t ops, SV.Proofs.C06Template.stepT_entry_state cfg t⟩
+
+set_option synthInstance.maxSize 2048 in
+/-- **The entry copy is needed.**  If only the style serializer gets a copy, `quote_all` rewrites the template's own path
+    container: the generated value `a b` is sent as `a%20b` by the first case and as `a%2520b` by the second. -/
+theorem template_late_copy_history_dependent :
+    (runT .beforeSerializer ⟨.repaired, .repaired, .repaired, .repaired, fun _ => []⟩
+        ⟨[(.path, [(lit "id", .prim (.str (lit "a b")))])]⟩ [.unmodified, .unmodified])[0]? =
+      some [(.path, some [(lit "id", .prim (.str (lit "a%20b")))])] ∧
+    (runT .beforeSerializer ⟨.repaired, .repaired, .repaired, .repaired, fun _ => []⟩
+        ⟨[(.path, [(lit "id", .prim (.str (lit "a b")))])]⟩ [.unmodified, .unmodified])[1]? =
+      some [(.path, some [(lit "id", .prim (.str (lit "a%2520b")))])] := by
+  decide
+
+set_option synthInstance.maxSize 2048 in
+/-- non-vacuity of `template_history_independent`: a history with the entry copy; the third case is the first again -/
+example :
+    (runT .entry ⟨.repaired, .repaired, .repaired, .repaired, fun _ => []⟩
+        ⟨[(.path, [(lit "id", .prim (.str (lit "a b")))]), (.query, [(lit "q", .prim (.int 1))])]⟩
+        [.unmodified, .withParameter .query (lit "q") (.prim (.bool true)), .unmodified])[2]? =
+      some [(.path, some [(lit "id", .prim (.str (lit "a%20b")))]), (.query, some [(lit "q", .prim (.str (lit "1")))])] ∧
+    (runT .entry ⟨.repaired, .repaired, .repaired, .repaired, fun _ => []⟩
+        ⟨[(.path, [(lit "id", .prim (.str (lit "a b")))]), (.query, [(lit "q", .prim (.int 1))])]⟩
+        [.unmodified, .withParameter .query (lit "q") (.prim (.bool true)), .unmodified])[1]? =
+      some [(.path, some [(lit "id", .prim (.str (lit "a%20b")))]), (.query, some [(lit "q", .prim (.str (lit "true")))])] := by
   decide
 
 end SV.Props.C06
